@@ -200,7 +200,7 @@ pub fn post_common(pre: &Snap, post: &Snap, f: &F, rt: &LogRt, cx: Ctx) {
     };
     vassert!(c == cpost, "c08: Active/Idle/Defunct/Rejoin notifications track the connection state");
     if cx.must_die {
-        vassert!(died, "c10: on learning that its identity is Down the instance renews or becomes Defunct");
+        vassert!(died, "c08+c10: on learning that its identity is Down (or unrefutably suspected) the instance renews or becomes Defunct");
     }
 
     // ---- C13: recurring timers and epochs -------------------------------------
@@ -208,7 +208,7 @@ pub fn post_common(pre: &Snap, post: &Snap, f: &F, rt: &LogRt, cx: Ctx) {
     let bumps = rt.count_note(Note::Idle) + rt.count_note(Note::Defunct) + rt.count_note(Note::Rejoin(post.identity))
         + (cx.resets as usize);
     vassert!(post.token == pre.token.wrapping_add(bumps as u8),
-        "c13: the timer epoch advances exactly on Idle, Defunct and identity change/reuse");
+        "c11+c13: the timer epoch advances exactly on Idle, Defunct and identity change/reuse (timers of earlier epochs stay dead)");
     let mut cnt = [0usize; 4];
     let mut t = 0;
     while t < NT {
